@@ -199,6 +199,14 @@ def build(ctx, name, sources, flags=(), cxx="g++", std="c++17", opt="-O1", defs=
     """Compile `sources` (first is the driver, others are absolute paths, e.g. under /repo/tlx)
     into one executable.  Returns its path.  Cache key: hash of every preprocessed TU + flags."""
     os.makedirs(CACHE, exist_ok=True)
+    covdir = os.environ.get("VERIF_COVERAGE")
+    if covdir:
+        # coverage build (tools/coverage.py): plain -O0 objects with gcov counters kept under $VERIF_COVERAGE/<driver>/; sanitizer builds are skipped
+        if any("sanitize" in f for f in flags):
+            flags = [f for f in flags if "sanitize" not in f]
+            name = name + "_cov_skip"
+        opt = "-O0"
+        flags = list(flags) + ["--coverage", "-DVERIF_COVERAGE"]
     base = [cxx, "-std=" + std, opt, "-g0", "-I" + REPO, "-I" + HARNESS] + list(defs) + list(includes) + list(flags)
     h = hashlib.sha256()
     h.update(" ".join(base + list(libs)).encode())
@@ -209,13 +217,16 @@ def build(ctx, name, sources, flags=(), cxx="g++", std="c++17", opt="-O1", defs=
         h.update(out.encode())
     key = h.hexdigest()[:24]
     exe = os.path.join(CACHE, "%s-%s" % (name, key))
+    if covdir:
+        exe = os.path.join(covdir, name, name)
+        os.makedirs(os.path.dirname(exe), exist_ok=True)
     if os.path.exists(exe):
         return exe
     t0 = time.time()
     objs = []
     procs = []
     for i, s in enumerate(sources):
-        o = ctx.path("obj", "%s-%d.o" % (name, i))
+        o = os.path.join(covdir, name, "%s-%d.o" % (name, i)) if covdir else ctx.path("obj", "%s-%d.o" % (name, i))
         objs.append(o)
         procs.append((s, subprocess.Popen(base + ["-c", s, "-o", o], stdout=subprocess.PIPE, stderr=subprocess.PIPE)))
     for s, p in procs:
